@@ -12,6 +12,7 @@ import (
 	"strings"
 	"sync/atomic"
 	"testing"
+	"time"
 
 	"verif/internal/vk"
 
@@ -32,12 +33,23 @@ var knownOpen = map[string]bool{
 	// "parse-number-literal-message", "runtime-error-after-block",
 	// "runtime-error-after-call-in-same-statement" and
 	// "error-keyed-to-last-token-before-newline" are generated and asserted like all others)
+	//
+	// Hunter round: two classes reproduce defects that are NOT yet fixed in /repo. They are left live on purpose
+	// (the check reports them until the fixes are applied; afterwards the shapes are regression coverage):
+	//   "runtime-error-after-a-failure-a-helper-forgave"  fix: /tmp/hunt-C15/rescue/fix.diff
+	//   "for-header-runs-past-its-tag"                    fix: /tmp/hunt-C15/forheader/fix.diff
+	// To run the rest of the space meanwhile: C15_OPEN=runtime-error-after-a-failure-a-helper-forgave,for-header-runs-past-its-tag
 }
 
 // C15_NOEXCLUDE=1 ignores the table for one run (shows what the excluded classes still do on the current tree).
 func isOpen(r *vk.Run, class string) bool {
 	if os.Getenv("C15_NOEXCLUDE") != "" {
 		return false
+	}
+	for _, c := range strings.Split(os.Getenv("C15_OPEN"), ",") {
+		if c == class {
+			return true // C15_OPEN=<class,...>: treat these classes as open for one run (mutant runs while a defect is unfixed)
+		}
 	}
 	return knownOpen[class] || r.OpenClass(class)
 }
@@ -49,6 +61,17 @@ type piece struct {
 	name      string
 	text      string
 	runsBlock bool // executes the body of a block (if / for / function / block helper) while rendering
+	late      bool // later addition (set by init for the entries after latePrefixesFrom)
+}
+
+const latePrefixesFrom = "comment whose body begins with a second comment opener"
+
+func init() {
+	late := false
+	for i := range prefixes {
+		late = late || prefixes[i].name == latePrefixesFrom
+		prefixes[i].late = late
+	}
 }
 
 var prefixes = []piece{
@@ -89,13 +112,56 @@ var prefixes = []piece{
 	{name: "tolerated failure in a function body, == nil", text: "<% let th = fn() { %>\n<% let q = missingName %>\n<% } %>\n<%= th() == nil %>\n", runsBlock: true},
 	{name: "tolerated failure in a function body, ||", text: "<% let tk = fn() { %>\n\n<% if (true) { %>\n<% return missingName %>\n<% } %>\n<% } %>\n<%= tk() || \"alt\" %>\n", runsBlock: true},
 	{name: "tolerated failure in a loop in a function body", text: "<% let tl = fn() { %>\n<%= for (v) in xs { %>\n<%= missingName %>\n<% } %>\n<% } %>\n<%= if (!tl()) { %>t<% } %>\n", runsBlock: true},
+	// --- later additions (hunter round): boundaries of the five scanning loops, spelled out
+	{name: "comment whose body begins with a second comment opener", text: "<%# <%# inner\nopener %>\n"},
+	{name: "comment whose body begins with a double quote", text: "<%#\"\n%>\n"},
+	{name: "comment whose body begins with a backtick", text: "<%#`\n\n%>\n"},
+	{name: "comment directly after a tag, text directly after it", text: "<%= 1 %><%# c\nd %>tail\n"},
+	{name: "comment that ends the prefix without a line end", text: "<%# a\nb %>"},
+	{name: "multi-line string tag that ends the prefix without a line end", text: "<% let ms = \"x\ny\" %>"},
+	{name: "line comment tag that ends the prefix without a line end", text: "<% let lc = 1 # c\n%>"},
+	{name: "empty line comment", text: "<% #\n let e1 = 1 %>\n"},
+	{name: "line comments in a row, LF CRLF and an empty line", text: "<% # a\n # b\r\n\n # c\n let e2 = 2 %>\n"},
+	{name: "line comment as the last thing of the tag", text: "<% let e3 = 3 # c\n%>\n"},
+	{name: "empty lines and tabs inside a tag", text: "<%\n\n\tlet w = 1\n\n%>\n"},
+	{name: "tag closed on a later line, text and tag after it", text: "<%= 1\n%>x<%= 2 %>\n"},
+	{name: "escaped backslash before a live multi-line tag", text: "\\\\<%=\n1\n%>\n"},
+	{name: "escaped opener with a line end inside", text: "\\<%= a\nb %>\n"},
+	{name: "back-quoted string holding a double quote", text: "<% let bq = `a\"\n` %>\n"},
+	{name: "double-quoted string holding a backtick and a hash", text: "<% let dq = \"a`#\n\" %>\n"},
+	{name: "escaped quote directly before a line end and at the end of the string", text: "<% let eq = \"x\\\"\ny\\\"\" %>\n"},
+	{name: "escaped opener directly followed by a line end", text: "\\<%\nx %>\n"},
+	{name: "empty tags", text: "<%%>\n<%=%>\n<% %>\n<%\n%>\n"},
+	{name: "line comment directly after the emit opener", text: "<%=# c\n1 %>\n"},
+	{name: "statements separated by a semicolon, closed on the next line", text: "<% let s1 = 1 ; let s2 = 2\n%>\n"},
+	{name: "line comment inside a block inside a tag, hash in text", text: "<% if (true) { # c\n} %># text\n"},
+	{name: "line comment between the operands of an expression", text: "<%= \"a\" # c\n+ \"b\" %>\n"},
+	{name: "ninety-seven empty lines", text: strings.Repeat("\n", 97)},
+	{name: "other vertical white space is no line end", text: "a b\u0085c\vd\fe\n"},
+	{name: "contentFor and contentOf", text: "<% contentFor(\"cf\") { %>\nstored\n<% } %>\n<%= contentOf(\"cf\") %>\n", runsBlock: true},
+	{name: "loop run three times, if / else-if / else inside", text: "<%= for (i, v) in xs { %>\n<%= if (v == 2) { %>\ntwo\n<% } else if (v == 3) { %>\nthree\n<% } else { %>\nother\n<% } %>\n<% } %>\n", runsBlock: true},
+	{name: "function called twice on one line", text: "<% let g2 = fn(y) {\n return y\n} %>\n<%= g2(1) %><%= g2(2) %>\n", runsBlock: true},
+	// a Go helper that forgives the failure of its block (returns a fallback): that earlier tag succeeded
+	{name: "helper forgives the failure of its block", text: "<%= rescue() { %>\n<%= missingName %>\n<% } %>\n", runsBlock: true},
+	{name: "helper forgives a failure in a function called by its block", text: "<% let rf = fn() { %>\n<%= missingName %>\n<% } %>\n<%= rescue() { %><%= rf() %><% } %>\n", runsBlock: true},
 }
 
 // ctx: where the failing tag is placed. The template is prefix + kind.setup + pre + TAG + tail + gap + post + suffix.
 type ctx struct {
 	name, pre, post string
-	top             bool // the failing statement is a top-level statement
-	loop            bool // break / continue are legal here
+	top             bool   // the failing statement is a top-level statement
+	loop            bool   // break / continue are legal here
+	fn              bool   // the failing tag lies in the body of a template function called by post (an unterminated tag would swallow the call)
+	forgives        bool   // the call site of that function tolerates an unknown identifier (C07): such kinds are no fault here
+	extra           bool   // later addition: swept by E3 (and the random phase) in the quick tier, by every sweep in the thorough tier
+	harmless        string // tag that validate() puts in place of the failing one (default: <%= 1 %>)
+}
+
+func (x ctx) ok() string {
+	if x.harmless != "" {
+		return x.harmless
+	}
+	return "<%= 1 %>"
 }
 
 var ctxs = []ctx{
@@ -104,11 +170,51 @@ var ctxs = []ctx{
 	{name: "if", pre: "<%= if (true) { %>\n", post: "<% } %>"},
 	{name: "else", pre: "<%= if (false) { %>\nno\n<% } else { %>\n", post: "<% } %>"},
 	{name: "for", pre: "<%= for (x) in xs { %>\n", post: "<% } %>", loop: true},
-	{name: "function", pre: "<% let f = fn() { %>\n", post: "<% } %>\n\n<%= f() %>"},
+	{name: "function", pre: "<% let f = fn() { %>\n", post: "<% } %>\n\n<%= f() %>", fn: true},
 	{name: "block helper", pre: "<%= blk() { %>\n", post: "<% } %>"},
 	{name: "for, after a tolerated failure in the same body", pre: "<% let tz = fn() { %>\n<%= missingName %>\n<% } %>\n<%= for (x) in xs { %>\n<%= if (tz()) { %>y<% } %>\n", post: "<% } %>", loop: true},
 	{name: "if in for, same line", pre: "<%= for (x) in one { %><%= if (x) { %>", post: "<% } %><% } %>", loop: true},
+	// --- later additions (hunter round). The body of a function holds the failing tag; what varies is the expression
+	// that CALLS the function two lines further down: the error has to travel through it with its line intact.
+	{name: "function, called as if condition", pre: fnPre, post: "<% } %>\n\n<%= if (f()) { %>y<% } %>", fn: true, forgives: true, extra: true},
+	{name: "function, called as else-if condition", pre: fnPre, post: "<% } %>\n\n<%= if (false) { %>n<% } else if (f()) { %>y<% } %>", fn: true, forgives: true, extra: true},
+	{name: "function, called under !", pre: fnPre, post: "<% } %>\n\n<%= !f() %>", fn: true, forgives: true, extra: true},
+	{name: "function, called left of ==", pre: fnPre, post: "<% } %>\n\n<%= f() == nil %>", fn: true, forgives: true, extra: true},
+	{name: "function, called right of !=", pre: fnPre, post: "<% } %>\n\n<%= nil != f() %>", fn: true, forgives: true, extra: true},
+	{name: "function, called right of &&", pre: fnPre, post: "<% } %>\n\n<%= true && f() %>", fn: true, forgives: true, extra: true},
+	{name: "function, called left of ||", pre: fnPre, post: "<% } %>\n\n<%= f() || true %>", fn: true, forgives: true, extra: true},
+	{name: "function, called right of +", pre: fnPre, post: "<% } %>\n\n<%= \"a\" + f() %>", fn: true, extra: true},
+	{name: "function, called left of <", pre: fnPre, post: "<% } %>\n\n<%= f() < 1 %>", harmless: "<% return 0 %>", fn: true, extra: true},
+	{name: "function, called in let", pre: fnPre, post: "<% } %>\n\n<% let r = f() %>", fn: true, extra: true},
+	{name: "function, called in an assignment", pre: "<% let r = 0 %>" + fnPre, post: "<% } %>\n\n<% r = f() %>", fn: true, extra: true},
+	{name: "function, called in return", pre: fnPre, post: "<% } %>\n\n<% return f() %>", fn: true, extra: true},
+	{name: "function, called as helper argument", pre: fnPre, post: "<% } %>\n\n<%= len(f()) %>", fn: true, extra: true},
+	{name: "function, called as for iterable", pre: fnPre, post: "<% } %>\n\n<%= for (w) in f() { %>w<% } %>", fn: true, extra: true},
+	{name: "function, called in an array literal", pre: fnPre, post: "<% } %>\n\n<%= [1, f()] %>", fn: true, extra: true},
+	{name: "function, called in a hash literal", pre: fnPre, post: "<% } %>\n\n<% let h = {\"k\": f()} %>", fn: true, extra: true},
+	{name: "function, called as index", pre: fnPre, post: "<% } %>\n\n<%= mp[f()] %>", harmless: "<% return \"a\" %>", fn: true, extra: true},
+	{name: "function, called as argument of a function", pre: fnPre, post: "<% } %>\n<% let g = fn(a) { return a } %>\n<%= g(f()) %>", fn: true, extra: true},
+	{name: "function, called from a function", pre: fnPre, post: "<% } %>\n<% let g = fn() { %>\n<%= f() %>\n<% } %>\n<%= g() %>", fn: true, extra: true},
+	{name: "function, called in a helper block", pre: fnPre, post: "<% } %>\n\n<%= blk() { %>\n<%= f() %>\n<% } %>", fn: true, extra: true},
+	{name: "function, called in a loop body", pre: fnPre, post: "<% } %>\n\n<%= for (x) in xs { %>\n<%= f() %>\n<% } %>", fn: true, extra: true},
+	{name: "function, failing on its second call", pre: "<% let f = fn(n) { %>\n<%= if (n == 2) { %>\n", post: "<% } %><% } %>\n<%= f(1) %>\n<%= f(2) %>", fn: true, extra: true},
+	{name: "function with parameters, called on the line after", pre: "<% let f = fn(a, b) { %>\n", post: "<% } %>\n<%= f(1, \"x\") %>", fn: true, extra: true},
+	// other bodies
+	{name: "loop, third iteration", pre: "<%= for (x) in xs { %>\n<%= if (x == 3) { %>\n", post: "<% } %>\n<% } %>", loop: true, extra: true},
+	{name: "else-if body", pre: "<%= if (false) { %>\nno\n<% } else if (true) { %>\n", post: "<% } %>", extra: true},
+	{name: "else after else-if", pre: "<%= if (false) { %>\nno\n<% } else if (false) { %>\nno\n<% } else { %>\n", post: "<% } %>", extra: true},
+	{name: "for over a map", pre: "<%= for (k, v) in mp { %>\n", post: "<% } %>", loop: true, extra: true},
+	{name: "for in for, second round of the outer loop", pre: "<%= for (i) in xs { %>\n<%= for (j) in one { %>\n<%= if (i == 2) { %>\n", post: "<% } %>\n<% } %>\n<% } %>", loop: true, extra: true},
+	{name: "contentFor body, rendered by a later contentOf", pre: "<% contentFor(\"slot\") { %>\n", post: "<% } %>\nbetween\n<%= contentOf(\"slot\") %>", extra: true},
+	{name: "default block of contentOf", pre: "<%= contentOf(\"unset\") { %>\n", post: "<% } %>", extra: true},
+	{name: "helper block in a function in a helper block", pre: "<%= blk() { %>\n<% let f = fn() { %>\n<%= blk() { %>\n", post: "<% } %>\n<% } %>\n<%= f() %>\n<% } %>", fn: true, extra: true},
+	{name: "function in for in if", pre: "<%= if (true) { %>\n<%= for (x) in one { %>\n<% let f = fn() { %>\n", post: "<% } %>\n<%= f() %>\n<% } %>\n<% } %>", fn: true, extra: true},
+	{name: "body after a failure that a helper forgave", pre: "<%= for (x) in one { %>\n<%= rescue() { %><%= missingName %><% } %>\n", post: "<% } %>", loop: true, extra: true},
+	{name: "top, directly after a comment that spans lines", pre: "<%# c1\nc2 %>", top: true, extra: true},
+	{name: "top, directly after a tag that spans lines", pre: "<% let ms = `x\ny` %>", top: true, extra: true},
 }
+
+const fnPre = "<% let f = fn() { %>\n"
 
 // kind: one failing statement. tag is the failing tag (single line, single spaces between tokens, no spaces
 // inside strings, so that layouts can turn spaces into line ends); tail is further text belonging to the same
@@ -125,6 +231,8 @@ type kind struct {
 	number     bool // over-long number literal (AF-15)
 	keyedToEnd bool // the parser consumes the closing %> as an operand, the message is keyed to that token (AF-16)
 	afterCall  bool // a function body runs earlier in the same statement (AF-14, second shape)
+	rescued    bool // a helper forgave the failure of its block earlier in the same statement
+	late       bool // later addition: swept by E4 in the quick tier, by every sweep in the thorough tier
 }
 
 var kinds = []kind{
@@ -210,6 +318,76 @@ var kinds = []kind{
 	{name: "over-long integer literal", family: "over-long-number", tag: `<%= 99999999999999999999 %>`, number: true},
 	{name: "over-long integer literal in let", family: "over-long-number", tag: `<% let q = 123456789012345678901234567890 %>`, number: true},
 	{name: "over-long float literal", family: "over-long-number", tag: `<%= 1` + strings.Repeat("9", 400) + `.5 %>`, number: true},
+	// --- later additions (hunter round): the same families raised from other expression shapes
+	{name: "unknown identifier in return", family: "unknown-identifier", tag: `<% return nope %>`, runtime: true, late: true},
+	{name: "unknown identifier as index", family: "unknown-identifier", tag: `<%= xs[nope] %>`, runtime: true, late: true},
+	{name: "unknown identifier in a hash literal", family: "unknown-identifier", tag: `<% let q = {"a": 1, "b": nope} %>`, runtime: true, late: true},
+	{name: "unknown identifier in an array literal", family: "unknown-identifier", tag: `<%= [1, nope] %>`, runtime: true, late: true},
+	{name: "unknown identifier as receiver", family: "unknown-identifier", tag: `<%= nope.Foo.Bar %>`, runtime: true, late: true},
+	{name: "unknown identifier as method receiver", family: "unknown-identifier", tag: `<%= nope.Call() %>`, runtime: true, late: true},
+	{name: "unknown identifier indexed", family: "unknown-identifier", tag: `<%= nope[1] %>`, runtime: true, late: true},
+	{name: "unknown identifier as right operand of <", family: "unknown-identifier", tag: `<%= 1 < nope %>`, runtime: true, late: true},
+	{name: "unknown function in a block inside one tag", family: "unknown-identifier", tag: `<% if (true) { nope(1) } %>`, runtime: true, late: true},
+	{name: "failing helper in a loop inside one tag", family: "failing-helper", tag: `<% for (w) in xs { boom() } %>`, runtime: true, late: true},
+	{name: "failing helper after a call that returned a value", family: "failing-helper", setup: "<% let r0 = fn() {\n return 1\n} %>\n\n", tag: `<%= r0() + boom() %>`, runtime: true, afterCall: true, late: true},
+	{name: "type error after a call that returned from a nested block", family: "type-error", setup: "<% let r1 = fn(a) { %>\n<% if (a) { %>\n<% return 1 %>\n<% } %>\n<% } %>\n\n", tag: `<%= [r1(true), 1 + "a"] %>`, runtime: true, afterCall: true, late: true},
+	{name: "unknown identifier as argument of a template function", family: "unknown-identifier", setup: "<% let f1 = fn(p) { %>\n<%= p %>\n<% } %>\n\n", tag: `<%= f1(nope) %>`, runtime: true, late: true},
+	{name: "failing helper as helper argument", family: "failing-helper", tag: `<%= len(boom()) %>`, runtime: true, late: true},
+	{name: "failing helper in let", family: "failing-helper", tag: `<% let q = boom() %>`, runtime: true, late: true},
+	{name: "failing helper as for iterable", family: "failing-helper", tag: `<%= for (w) in boom() { %>`, tail: `w<% } %>`, runtime: true, late: true},
+	{name: "failing helper under !", family: "failing-helper", tag: `<%= !boom() %>`, runtime: true, late: true},
+	{name: "failing helper right of ||", family: "failing-helper", tag: `<%= false || boom() %>`, runtime: true, late: true},
+	{name: "failing helper with a block", family: "failing-helper", tag: `<%= boomblk() { %>`, tail: `b<% } %>`, runtime: true, late: true},
+	{name: "failing method", family: "failing-helper", tag: `<%= obj.Fail() %>`, runtime: true, late: true},
+	{name: "failing method of a nested field", family: "failing-helper", tag: `<%= obj.Inner.Fail() %>`, runtime: true, late: true},
+	{name: "panicking helper", family: "failing-helper", tag: `<%= panics() %>`, runtime: true, late: true},
+	{name: "failing helper in else-if condition, second else-if", family: "failing-helper", lead: "<%= if (false) { %>\nc\n<% } else if (false) { %>\nc2\n", tag: `<% } else if (boom()) { %>`, tail: `d<% } else { %>e<% } %>`, runtime: true, late: true},
+	{name: "wrong argument type", family: "type-error", tag: `<%= takesInt("a") %>`, runtime: true, late: true},
+	{name: "too many arguments", family: "type-error", tag: `<%= len(1, 2, 3) %>`, runtime: true, late: true},
+	{name: "too few arguments to a template function", family: "type-error", setup: "<% let f1 = fn(p) { %>\n<%= p %>\n<% } %>\n\n", tag: `<%= f1() %>`, runtime: true, late: true},
+	{name: "no such method", family: "type-error", tag: `<%= one.Foo() %>`, runtime: true, late: true},
+	{name: "string times int", family: "type-error", tag: `<%= "a" * 2 %>`, runtime: true, late: true},
+	{name: "float by int", family: "type-error", tag: `<%= 1.5 / 0 %>`, runtime: true, late: true},
+	{name: "for over an int", family: "type-error", tag: `<%= for (w) in 1 { %>`, tail: `w<% } %>`, runtime: true, late: true},
+	{name: "non-int index of a slice", family: "type-error", tag: `<%= xs["a"] %>`, runtime: true, late: true},
+	{name: "missing partial feeder", family: "failing-helper", tag: `<%= partial("nope") %>`, runtime: true, late: true},
+	{name: "contentOf without contentFor", family: "failing-helper", tag: `<%= contentOf("missing") %>`, runtime: true, late: true},
+	{name: "index assignment out of range", family: "index-out-of-range", tag: `<% xs[9] = 1 %>`, runtime: true, late: true},
+	{name: "index out of range, negative", family: "index-out-of-range", tag: `<%= xs[-1] %>`, runtime: true, late: true},
+	{name: "division by zero in a call argument", family: "division-by-zero", tag: `<%= len([1 / 0]) %>`, runtime: true, late: true},
+	// a Go helper forgives the failure of its block (an unknown identifier raised in a function that the block calls);
+	// the same statement then fails for another reason
+	{name: "failing helper after a failure that a helper forgave, +", family: "failing-helper", setup: "<% let t1 = fn() { %>\n<%= missingName %>\n<% } %>\n\n", tag: `<%= rescue() { %><%= t1() %><% } + boom() %>`, runtime: true, rescued: true, late: true},
+	{name: "division by zero after a failure that a helper forgave, array", family: "division-by-zero", setup: "<% let t1 = fn() { %>\n<% let q1 = missingName %>\n<% } %>\n\n", tag: `<%= [rescue() { %><%= t1() %><% }, 1 / 0] %>`, runtime: true, rescued: true, late: true},
+	{name: "type error after a failure that a helper forgave, helper argument", family: "type-error", setup: "<% let t1 = fn() { %>\n<% return 1 / 0 %>\n<% } %>\n\n", tag: `<%= len(rescue() { %><%= t1() %><% }) + "a" %>`, runtime: true, rescued: true, late: true},
+	// --- syntax
+	{name: "else alone", family: "illegal-character", tag: `<%= else %>`, late: true},
+	{name: "in alone", family: "illegal-character", tag: `<% in %>`, late: true},
+	{name: "fn alone", family: "missing-brace-or-paren", tag: `<%= fn %>`, late: true},
+	{name: "let with two =", family: "malformed-let", tag: `<% let q = = 1 %>`, late: true},
+	{name: "two operators", family: "illegal-character", tag: `<%= 1 +* 2 %>`, late: true},
+	{name: "illegal number 1..2", family: "illegal-character", tag: `<%= 1..2 %>`, late: true},
+	{name: "index without comma", family: "unbalanced", tag: `<%= xs[1 2] %>`, late: true},
+	{name: "hash without colon", family: "unbalanced", tag: `<%= {"a" 1} %>`, late: true},
+	{name: "hash with int key without colon", family: "unbalanced", tag: `<%= {1 2} %>`, late: true},
+	{name: "hash with two commas", family: "unbalanced", tag: `<%= {"a": 1,, } %>`, late: true},
+	{name: "array with two commas", family: "unbalanced", tag: `<%= [1,,2] %>`, late: true},
+	{name: "call with a lone comma", family: "unbalanced", tag: `<%= boom(,) %>`, late: true},
+	{name: "index after dot", family: "illegal-character", tag: `<%= xs[0].[1] %>`, late: true},
+	{name: "indexed array literal after dot", family: "illegal-character", tag: `<%= xs[0].[1][2] %>`, late: true},
+	{name: "number after call and dot", family: "illegal-character", tag: `<%= boom().(1) %>`, late: true},
+	{name: "string after call and dot", family: "illegal-character", tag: `<%= boom()."a" %>`, late: true},
+	{name: "illegal character $", family: "illegal-character", tag: `<%= $ %>`, late: true},
+	{name: "single-quoted string", family: "illegal-character", tag: `<%= 'a' %>`, late: true},
+	{name: "ternary", family: "illegal-character", tag: `<%= xs ? 1 : 2 %>`, late: true},
+	{name: "modulo", family: "illegal-character", tag: `<%= 1 % 2 %>`, late: true},
+	{name: "tilde alone", family: "illegal-character", tag: `<%= ~ %>`, late: true},
+	{name: "assignment in if condition", family: "if-without-condition", tag: `<%= if (1 = 2) { %>`, tail: `c<% } %>`, late: true},
+	{name: "let as if condition", family: "if-without-condition", tag: `<%= if (let) { %>`, tail: `c<% } %>`, late: true},
+	{name: "else if missing {", family: "missing-brace-or-paren", lead: "<%= if (true) { %>c", tag: `<% } else if (true) %>`, tail: `d<% } %>`, late: true},
+	{name: "( after a function literal", family: "unbalanced", lead: "<%= fn() { %>c", tag: `<% } ( %>`, late: true},
+	{name: "stray ) after a helper block", family: "unbalanced", lead: "<%= blk() { %>c", tag: `<% } ) %>`, late: true},
+	{name: "over-long integer literal as index", family: "over-long-number", tag: `<%= xs[99999999999999999999] %>`, number: true, late: true},
 }
 
 // text between the failing construct and the closing text of the context
@@ -230,6 +408,7 @@ const (
 	layAfterOpen        // line feed after the opener
 	layBeforeEnd        // line feed before the last token
 	layStringLF         // as written, but a line feed inside the first string literal of the tag
+	layTight            // later addition: no space after the opener and none before the closer: <%=nope%>
 	nLayouts
 )
 
@@ -249,6 +428,18 @@ func layout(tag string, lay int) string {
 		if i := strings.IndexAny(tag, "\"`"); i >= 0 {
 			return tag[:i+1] + "\n" + tag[i+1:]
 		}
+	case layTight:
+		t := tag
+		for _, o := range []string{"<%= ", "<% "} {
+			if strings.HasPrefix(t, o) {
+				t = strings.TrimSuffix(o, " ") + t[len(o):]
+				break
+			}
+		}
+		if strings.HasSuffix(t, " %>") {
+			t = strings.TrimSuffix(t, " %>") + "%>"
+		}
+		return t
 	}
 	return tag
 }
@@ -266,6 +457,9 @@ type Case struct {
 	Shifts    []int    `json:"shifts"`     // numbers of newlines of literal text to prepend
 	ShiftText vk.Text  `json:"shift_text"` // text of each prepended line (may be empty)
 	Classes   []string `json:"classes,omitempty"`
+	// later additions: the same template evaluated again with something changed in between
+	Cached     bool `json:"cached,omitempty"`      // plush.CacheEnabled is on while the case runs; the parsed *Template is executed twice
+	ShiftFirst bool `json:"shift_first,omitempty"` // the shifted templates are evaluated before the unshifted one
 }
 
 func (c Case) src() string { return string(c.Pre) + string(c.Lead) + string(c.Tag) + string(c.Post) }
@@ -279,15 +473,55 @@ func data() map[string]interface{} {
 			s, err := h.Block()
 			return template.HTML(s), err
 		},
+		// later additions
+		"mp": map[string]int{"a": 1},
+		// rescue renders its block and forgives its failure: the call succeeds with a fallback
+		"rescue": func(h plush.HelperContext) (template.HTML, error) {
+			s, err := h.Block()
+			if err != nil {
+				return "fallback", nil
+			}
+			return template.HTML(s), nil
+		},
+		// boomblk fails without running its block
+		"boomblk":  func(h plush.HelperContext) (string, error) { return "", errors.New("kaboom before the block") },
+		"panics":   func() string { panic("helper panicked") },
+		"takesInt": func(i int) int { return i },
+		"obj":      obj{Inner: &obj{}},
 	}
 }
 
-var apis = []struct {
+type obj struct{ Inner *obj }
+
+func (obj) Fail() (string, error) { return "", errors.New("method failed") }
+
+type api struct {
 	name string
 	run  func(src string) (string, error)
-}{
+}
+
+var apis = []api{
 	{"Render", func(src string) (string, error) { return plush.Render(src, plush.NewContextWith(data())) }},
 	{"Parse", func(src string) (string, error) { _, err := plush.Parse(src); return "", err }},
+}
+
+// apisCached are used while plush.CacheEnabled is on (sequential phase E5 only: the switch is a package variable).
+// "Parse, Exec twice" executes one parsed template twice on fresh data: what the first execution left behind must
+// not show in the error of the second.
+var apisCached = []api{
+	{"Render (cache on)", func(src string) (string, error) { return plush.Render(src, plush.NewContextWith(data())) }},
+	{"Parse, Exec twice (cache on)", func(src string) (string, error) {
+		t, err := plush.Parse(src)
+		if err != nil {
+			return "", err
+		}
+		_, err1 := t.Exec(plush.NewContextWith(data()))
+		out, err2 := t.Clone().Exec(plush.NewContextWith(data()))
+		if (err1 == nil) != (err2 == nil) || (err1 != nil && err1.Error() != err2.Error()) {
+			return "", fmt.Errorf("no line: the first execution of the parsed template returned error %v, the second %v", err1, err2)
+		}
+		return out, err2
+	}},
 }
 
 var lineRE = regexp.MustCompile(`^line (\d+): `)
@@ -341,13 +575,33 @@ func check(r *vk.Run, c Case) *vk.Fail {
 	}
 	nt := ""
 	if first > 1 {
-		nt = src + "\x00" + fmt.Sprint(c.Shifts) + string(c.ShiftText)
+		nt = src + "\x00" + fmt.Sprint(c.Shifts, c.Cached, c.ShiftFirst) + string(c.ShiftText)
 	}
 	r.Count(nt, "kind/"+c.Kind)
 	r.Class("ctx/" + c.Ctx)
 	atomic.AddInt64(&evaluated, 1)
-	for _, api := range apis {
-		res := vk.Safe(func() (string, error) { return api.run(src) })
+	use := apis
+	if c.Cached {
+		was := plush.CacheEnabled
+		plush.CacheEnabled = true
+		defer func() { plush.CacheEnabled = was }()
+		use = apisCached
+	}
+	for _, api := range use {
+		// every template of the case is evaluated up front, in the order the case asks for
+		inputs := []string{src}
+		for _, k := range c.Shifts {
+			inputs = append(inputs, strings.Repeat(string(c.ShiftText)+"\n", k)+src)
+		}
+		results := make([]vk.Res, len(inputs))
+		for j := range inputs {
+			i := j
+			if c.ShiftFirst {
+				i = len(inputs) - 1 - j
+			}
+			results[i] = vk.Safe(func() (string, error) { return api.run(inputs[i]) })
+		}
+		res := results[0]
 		if res.Panicked() {
 			r.Exclude("panic (subject of C03/C04)")
 			return nil
@@ -355,6 +609,9 @@ func check(r *vk.Run, c Case) *vk.Fail {
 		if res.Err == nil {
 			if api.name == "Parse" {
 				continue // the fault is raised while rendering
+			}
+			if c.Cached && api.name != use[0].name {
+				return fail("%s returns no error, %s returned one", api.name, use[0].name)
 			}
 			atomic.AddInt64(&noError, 1)
 			if os.Getenv("C15_TRACE") != "" {
@@ -382,9 +639,8 @@ func check(r *vk.Run, c Case) *vk.Fail {
 			return fail("%s error %q names line %d, the failing tag spans lines %d..%d", api.name, text, n, first, last)
 		}
 		// (3) shifting
-		for _, k := range c.Shifts {
-			shifted := strings.Repeat(string(c.ShiftText)+"\n", k) + src
-			res2 := vk.Safe(func() (string, error) { return api.run(shifted) })
+		for i, k := range c.Shifts {
+			res2 := results[i+1]
 			if res2.Panicked() || res2.Err == nil {
 				return fail("%s after prepending %d line(s) %q the result is %s, without them error %q", api.name, k, string(c.ShiftText), res2, text)
 			}
@@ -408,17 +664,24 @@ type cell struct {
 	prefix                      string
 	prefixRunsBlock             bool
 	extra                       string // further suffix text (random phase)
+	nest                        *ctx   // a drawn context (random phase) instead of ctxs[ctx]
 }
 
 // build returns the case of a cell, the generator classes it belongs to, and ok=false for cells that are not
 // faulty templates by construction (break inside a loop, a layout that does not apply).
 func build(cl cell) (c Case, classes []string, ok bool) {
 	k, x := kinds[cl.kind], ctxs[cl.ctx]
+	if cl.nest != nil {
+		x = *cl.nest
+	}
 	if k.loopOnly && x.loop {
 		return c, nil, false
 	}
-	if k.toEOF && k.runtime && x.name == "function" {
+	if k.toEOF && k.runtime && x.fn {
 		return c, nil, false // the unterminated tag swallows the call of the function: nothing fails
+	}
+	if x.forgives && k.family == "unknown-identifier" {
+		return c, nil, false // an unknown identifier is tolerated by this call site (C07): not a faulty template
 	}
 	tag := layout(k.tag, cl.lay)
 	if cl.lay != layFlat && tag == k.tag {
@@ -435,6 +698,12 @@ func build(cl cell) (c Case, classes []string, ok bool) {
 	}
 	if k.afterCall {
 		classes = append(classes, "runtime-error-after-call-in-same-statement")
+	}
+	if k.rescued {
+		classes = append(classes, "runtime-error-after-a-failure-a-helper-forgave")
+	}
+	if k.name == "open for header" && strings.Contains(post, ")") {
+		classes = append(classes, "for-header-runs-past-its-tag")
 	}
 	if k.keyedToEnd && strings.HasPrefix(post, "\n") {
 		classes = append(classes, "error-keyed-to-last-token-before-newline")
@@ -453,6 +722,15 @@ func trace(f *vk.Fail) *vk.Fail {
 	return f
 }
 
+// phase (development aid): C15_TRACE=1 prints the wall time at which each phase starts.
+var t0 = time.Now()
+
+func phase(name string) {
+	if os.Getenv("C15_TRACE") != "" {
+		fmt.Printf("PHASE %6.1fs %s\n", time.Since(t0).Seconds(), name)
+	}
+}
+
 func firstByte(s string) string {
 	if s == "" {
 		return ""
@@ -462,6 +740,10 @@ func firstByte(s string) string {
 
 // run evaluates a cell unless it belongs to an open class.
 func runCell(r *vk.Run, cl cell, shifts []int, shiftText string) *vk.Fail {
+	return runCellWith(r, cl, shifts, shiftText, false, false)
+}
+
+func runCellWith(r *vk.Run, cl cell, shifts []int, shiftText string, cached, shiftFirst bool) *vk.Fail {
 	c, classes, ok := build(cl)
 	if !ok {
 		return nil
@@ -473,6 +755,7 @@ func runCell(r *vk.Run, cl cell, shifts []int, shiftText string) *vk.Fail {
 		}
 	}
 	c.Shifts, c.ShiftText = shifts, vk.Text(shiftText)
+	c.Cached, c.ShiftFirst = cached, shiftFirst
 	return check(r, c)
 }
 
@@ -489,7 +772,7 @@ func validate() error {
 	for _, p := range prefixes {
 		for _, x := range ctxs {
 			for _, s := range suffixes {
-				if err := try("prefix "+p.name+" / context "+x.name, p.text+x.pre+"<%= 1 %>"+x.post+s); err != nil {
+				if err := try("prefix "+p.name+" / context "+x.name, p.text+x.pre+x.ok()+x.post+s); err != nil {
 					return err
 				}
 			}
@@ -576,20 +859,87 @@ func genPrefix(t *rapid.T) (string, bool) {
 	return sb.String(), runs
 }
 
+// genNest draws a context of 1..4 bodies nested in each other (if, else, else-if, for, function defined and called,
+// block helper, contentFor rendered later, helper that forgives) with random text between the opening tags.
+func genNest(t *rapid.T) ctx {
+	depth := rapid.IntRange(1, 4).Draw(t, "depth")
+	x := ctx{name: "nest"}
+	for d := 0; d < depth; d++ {
+		sep := rapid.SampledFrom([]string{"\n", "\n", "", "\n\n", "t\n", " "}).Draw(t, "sep")
+		sep2 := rapid.SampledFrom([]string{"\n", "", "\n\n"}).Draw(t, "sep2")
+		switch rapid.IntRange(0, 8).Draw(t, "body") {
+		case 0:
+			x.pre += "<%= if (true) { %>" + sep
+			x.post = "<% } %>" + sep2 + x.post
+			x.name += "/if"
+		case 1:
+			x.pre += "<%= if (false) { %>no<% } else { %>" + sep
+			x.post = "<% } %>" + sep2 + x.post
+			x.name += "/else"
+		case 2:
+			x.pre += "<%= if (false) { %>no" + sep2 + "<% } else if (true) { %>" + sep
+			x.post = "<% } else { %>" + sep2 + "no<% } %>" + x.post
+			x.name += "/else-if"
+		case 3:
+			x.pre += "<%= for (x) in one { %>" + sep
+			x.post = "<% } %>" + sep2 + x.post
+			x.loop = true
+			x.name += "/for"
+		case 4:
+			f := fmt.Sprintf("nf%d", d)
+			x.pre += "<% let " + f + " = fn() { %>" + sep
+			call := rapid.SampledFrom([]string{"<%%= %s() %%>", "<%% let r%[2]d = %[1]s() %%>", "<%%= \"a\" + %s() %%>", "<%%= len(%s()) %%>", "<%%= blk() { %%><%%= %s() %%><%% } %%>"}).Draw(t, "call")
+			x.post = "<% } %>" + sep2 + fmt.Sprintf(call, f, d) + x.post
+			x.loop, x.fn = false, true
+			x.name += "/function"
+		case 5:
+			x.pre += "<%= blk() { %>" + sep
+			x.post = "<% } %>" + sep2 + x.post
+			x.name += "/block helper"
+		case 6:
+			n := fmt.Sprintf("slot%d", d)
+			x.pre += "<% contentFor(\"" + n + "\") { %>" + sep
+			x.post = "<% } %>" + sep2 + "<%= contentOf(\"" + n + "\") %>" + x.post
+			x.name += "/contentFor"
+		case 7:
+			x.pre += "<%= for (x) in xs { %>" + sep2 + "<%= if (x == 2) { %>" + sep
+			x.post = "<% } %>" + sep2 + "<% } %>" + x.post
+			x.loop = true
+			x.name += "/for, second iteration"
+		case 8:
+			// an earlier statement of the same body whose failure a helper forgave
+			x.pre += "<%= if (true) { %>" + sep + "<%= rescue() { %>" + sep2 + "<%= missingName %><% } %>" + sep
+			x.post = "<% } %>" + sep2 + x.post
+			x.name += "/if after a forgiven failure"
+		}
+	}
+	return x
+}
+
 // ---- the check ---------------------------------------------------------------------------------------
 
 var rule = "Templates = prefix + [setup] + context opener + ONE failing tag + tail + gap + context closer + suffix. " +
 	fmt.Sprintf("Prefixes: %d table pieces", len(prefixes)) + " (text, empty lines, ok tags, silent tags holding multi-line double- and back-quoted strings incl. escaped quotes and tag delimiters, " +
-	"multi-line <%# %> comments, # line comments, CRLF, multi-line code tags and hash literals, escaped openers, multi-byte text, if/else/for/function/block-helper blocks, taken and not taken) " +
+	"multi-line <%# %> comments, # line comments, CRLF, multi-line code tags and hash literals, escaped openers, multi-byte text, if/else/for/function/block-helper blocks, taken and not taken; " +
+	"later additions: comments whose body begins with <%# \" or `, comments / multi-line tags / line-comment tags that end the prefix without a line end, empty and consecutive # comments with LF and CRLF, " +
+	"empty lines inside a tag, escaped backslash before a live tag, escaped opener spanning lines, 97 empty lines (digit boundaries), NEL/VT/FF/U+2028 as text, contentFor+contentOf, a loop run three times, " +
+	"a function called twice, a Go helper that forgives the failure of its block) " +
 	"and, in the random phase, sequences of 0..8 pieces mixed with random text lines, random multi-line strings and comments. " +
 	fmt.Sprintf("Failing tags: %d kinds (", len(kinds)) + "unknown identifier, failing helper, type error, index out of range, division by zero, unbalanced ( [ {, missing { or ( ), illegal character, malformed let, " +
-	"if without condition, for without in, break/continue outside a loop, over-long number literal, tag or string unterminated at the end of input, faults in else / else-if continuation tags), each in 6 layouts (one line; line feeds or CR LF between all tokens, " +
-	"after the opener, before the last token, inside a string). Contexts: top level (start of line and mid-line), if, else, for, function body (called later), block helper, if-in-for on one line. " +
+	"if without condition, for without in, break/continue outside a loop, over-long number literal, tag or string unterminated at the end of input, faults in else / else-if continuation tags; later additions: the same families " +
+	"raised from return, index, hash and array literals, receivers, helper arguments, for iterables, methods, a panicking helper, wrong arity / argument type, partial and contentOf failures, index assignment, " +
+	"blocks inside one tag, a failure that a Go helper forgave earlier in the same statement, and 27 further syntax faults), each in 7 layouts (one line; line feeds or CR LF between all tokens, " +
+	"after the opener, before the last token, inside a string; later addition: no space after the opener and before the closer). " +
+	fmt.Sprintf("Contexts: %d (", len(ctxs)) + "top level (start of line and mid-line), if, else, for, function body (called later), block helper, if-in-for on one line; later additions: the function that holds the failing tag " +
+	"called from 24 kinds of call site (if / else-if condition, ! == != && || + <, let, assignment, return, helper argument, for iterable, array / hash literal, index, argument of / body of another function, " +
+	"helper block, loop body, second call, with parameters), third loop iteration, else-if body, else after else-if, for over a map, nested loops, contentFor body rendered later, default block of contentOf, " +
+	"three-deep mixed nests, a body after a failure that a helper forgave, directly after a multi-line comment / tag); the random phase also draws nests of 1..4 bodies. " +
 	"Gaps after the failing construct: none, space, LF, space LF, CR LF; 4 suffixes. " +
 	"Oracle (from the statement, by counting line feeds in the generated text, never from the lexer): (1) every message line of the error starts with 'line N: '; " +
 	"(2) N of the first message = line of the failing tag if it lies on one line, else within [first,last] line of the tag (to the end of input for an unterminated tag); " +
-	"(3) after prepending k in 1..50 lines of literal text (empty or not) the error is byte-identical except that every leading N became N+k. Parse and Render are both judged. " +
-	"Non-trivial: the failing tag does not start on line 1 (there is something to count); distinct by template text + shifts."
+	"(3) after prepending k in 1..50 (E7: also 127..65536) lines of literal text (empty or not) the error is byte-identical except that every leading N became N+k. Parse and Render are both judged. " +
+	"E5 and a quarter of the random run-time cases repeat this with plush.CacheEnabled on, in both evaluation orders (unshifted first / shifted first), and execute one parsed template twice. " +
+	"Non-trivial: the failing tag does not start on line 1 (there is something to count); distinct by template text + shifts + cache mode."
 
 func setup(t *testing.T) *vk.Run {
 	r := vk.Start(t, "C15", rule,
@@ -597,14 +947,17 @@ func setup(t *testing.T) *vk.Run {
 		"only N of the first message of a multi-message parse error is compared with the failing tag; follow-on messages must carry a prefix and shift, their N is not fixed by the statement",
 		"a fault inside an else / else-if continuation tag: any line from the tag that opens the if-statement to the continuation tag is accepted (the statement does not say which of them 'contains the failing statement'; the tree names the opening tag for run-time faults and the continuation tag for syntax faults)",
 		"when no error is returned at all the case is counted under excluded (subject of C05), a panic likewise (C03/C04)",
-		"# line comments are generated only where the byte after the following token is white space (AF-05 swallows that byte; subject of C18)")
+		"# line comments are generated only where the byte after the following token is white space (AF-05 swallows that byte; subject of C18)",
+		"a call site that tolerates an unknown identifier (if / else-if condition, ! == != && ||, C07) is not combined with the unknown-identifier kinds: whether the forgiven statement or the caller is 'the failing statement' of a later fault is not fixed by the statement",
+		"no random text is appended after a tag or string that is unterminated at the end of the input: that text is code, and a quote, brace or operator in it can make an enclosing statement the failing one",
+		"a value that fails only when it is PRINTED (a String method that panics) inside a block is reported on the line of the enclosing top-level tag: not one of the fault kinds the property lists, observed, not asserted")
 	r.Replayer("line", func(raw json.RawMessage) *vk.Fail {
 		var c Case
 		if f := vk.Decode(raw, &c); f != nil {
 			return f
 		}
 		for _, k := range c.Shifts {
-			if k < 0 || k > 10000 {
+			if k < 0 || k > 100000 {
 				return &vk.Fail{Kind: "decode", Msg: "shift out of range"}
 			}
 		}
@@ -634,8 +987,8 @@ func TestProp(t *testing.T) {
 		}
 		return out
 	}
-	sweep := func(name string, pfx, gp, sf, lays []int, rotate bool, nshift int) {
-		dims := []int{len(lays), len(sf), len(gp), len(pfx), len(ctxs), len(kinds)}
+	sweep := func(name string, kds, cxs, pfx, gp, sf, lays []int, rotate bool, nshift int) {
+		dims := []int{len(lays), len(sf), len(gp), len(pfx), len(cxs), len(kds)}
 		if rotate {
 			dims[1], dims[2] = 1, 1
 		}
@@ -643,6 +996,7 @@ func TestProp(t *testing.T) {
 		for _, d := range dims {
 			total *= int64(d)
 		}
+		phase(name)
 		r.Subspace(fmt.Sprintf("%s: %d failing kinds x %d contexts x %d prefixes x %d gaps x %d suffixes x %d layouts, %d shifts each (cells that are no fault by construction are skipped)",
 			name, dims[5], dims[4], dims[3], dims[2], dims[1], dims[0], nshift), total, true)
 		r.Parallel(total, 0, func(i int64) {
@@ -657,8 +1011,8 @@ func TestProp(t *testing.T) {
 			}
 			p := prefixes[pfx[next(dims[3])]]
 			cl.prefix, cl.prefixRunsBlock = p.text, p.runsBlock
-			cl.ctx = next(dims[4])
-			cl.kind = next(dims[5])
+			cl.ctx = cxs[next(dims[4])]
+			cl.kind = kds[next(dims[5])]
 			shiftText := ""
 			if i%2 == 1 {
 				shiftText = "zz <b> \\ % >"
@@ -671,33 +1025,149 @@ func TestProp(t *testing.T) {
 		})
 	}
 	allLays := seq(nLayouts)
+	earlyLays := seq(layTight)
+	// the tables as they were before the later additions (early) and the additions (late / extra)
+	var earlyKinds, lateKinds, runtimeKinds, coreCtxs, extraCtxs []int
+	for i, k := range kinds {
+		if k.late {
+			lateKinds = append(lateKinds, i)
+		} else {
+			earlyKinds = append(earlyKinds, i)
+		}
+		if k.runtime {
+			runtimeKinds = append(runtimeKinds, i)
+		}
+	}
+	var syntaxKinds, extraCtxsForSyntax []int
+	for i, k := range kinds {
+		if !k.runtime {
+			syntaxKinds = append(syntaxKinds, i)
+		}
+	}
+	for i, x := range ctxs {
+		if x.extra {
+			extraCtxs = append(extraCtxs, i)
+			if !strings.HasPrefix(x.name, "function, called ") || len(extraCtxs)%4 == 1 || x.name == "function, called from a function" {
+				extraCtxsForSyntax = append(extraCtxsForSyntax, i)
+			}
+		} else {
+			coreCtxs = append(coreCtxs, i)
+		}
+	}
+	var earlyPfx, latePfx []int
+	for i, p := range prefixes {
+		if p.late {
+			latePfx = append(latePfx, i)
+		} else {
+			earlyPfx = append(earlyPfx, i)
+		}
+	}
+	// one kind of every family (the first of the table)
+	var familyKinds []int
+	seenFamily := map[string]bool{}
+	for i, k := range kinds {
+		if !seenFamily[k.family] {
+			seenFamily[k.family] = true
+			familyKinds = append(familyKinds, i)
+		}
+	}
+	e3p := pick("one text line", "multi-line back-quoted string", "helper forgives a failure in a function called by its block")
+	e4p := pick("ninety-seven empty lines", "comment that ends the prefix without a line end", "string holding tag delimiters", "empty", "multi-line comment", "for block")
 	if r.Quick() {
-		sweep("every prefix", seq(len(prefixes)), seq(len(gaps)), seq(len(suffixes)), []int{layFlat, layAllLF}, true, 2)
-		sweep("every gap, suffix and layout", pick("multi-line double-quoted string", "if block"), seq(len(gaps)), seq(len(suffixes)), allLays, false, 2)
+		sweep("every prefix", earlyKinds, coreCtxs, earlyPfx, seq(len(gaps)), seq(len(suffixes)), []int{layFlat, layAllLF}, true, 2)
+		sweep("every later prefix, one kind per family", familyKinds, coreCtxs, latePfx, seq(len(gaps)), seq(len(suffixes)), []int{layFlat}, true, 2)
+		sweep("every gap, suffix and layout", earlyKinds, coreCtxs, pick("multi-line double-quoted string", "if block"), seq(len(gaps)), seq(len(suffixes)), earlyLays, false, 2)
+		// E3: the later contexts (call sites of the function that holds the failing tag, deeper bodies, second calls
+		// and later iterations) x every kind; E4: the later kinds x the earlier contexts x every layout
+		// (a parse error does not depend on how the function is called: the syntax kinds meet every fourth call site)
+		sweep("E3 later contexts, kinds failing at run time", runtimeKinds, extraCtxs, e3p[1:], seq(len(gaps)), seq(len(suffixes)), []int{layFlat, layAllLF}, true, 2)
+		sweep("E3 later contexts, syntax kinds", syntaxKinds, extraCtxsForSyntax, e3p[1:], seq(len(gaps)), seq(len(suffixes)), []int{layFlat, layAllLF}, true, 2)
+		sweep("E4 later kinds", lateKinds, coreCtxs, e4p[:3], seq(len(gaps)), seq(len(suffixes)), allLays, true, 2)
+		sweep("E6 tight layout", earlyKinds, seq(len(ctxs)), e3p[:1], seq(len(gaps)), seq(len(suffixes)), []int{layTight}, true, 2)
 	} else {
-		sweep("full product", seq(len(prefixes)), seq(len(gaps)), seq(len(suffixes)), allLays, false, 3)
+		// the full product of the earlier tables as before; the later additions are swept against a share of the other
+		// dimensions (the full product of everything would be four times the budget of this tier)
+		sweep("full product of the earlier tables", earlyKinds, coreCtxs, earlyPfx, seq(len(gaps)), seq(len(suffixes)), earlyLays, false, 3)
+		sweep("every later prefix", earlyKinds, coreCtxs, latePfx, seq(len(gaps)), seq(len(suffixes)), []int{layFlat, layAllLF}, true, 3)
+		sweep("E3 later contexts", seq(len(kinds)), extraCtxs, append(append([]int{}, e3p...), e4p...), seq(len(gaps)), seq(len(suffixes)), []int{layFlat, layAllLF, layAllCRLF}, true, 3)
+		sweep("E4 later kinds", lateKinds, coreCtxs, append(append([]int{}, e4p...), latePfx...), seq(len(gaps)), seq(len(suffixes)), allLays, true, 3)
+		sweep("E6 tight layout", seq(len(kinds)), seq(len(ctxs)), e4p, seq(len(gaps)), seq(len(suffixes)), []int{layTight}, true, 3)
 	}
 
-	// E2: every shift 1..50 for every kind x context (x 2 prefixes x 2 gaps)
+	// E2: every shift 1..50 for every kind x context (x 2 prefixes x 2 gaps; the later kinds and contexts: 1 x 1)
 	e2p := pick("one text line", "multi-line double-quoted string")
 	e2g := []int{0, 3}
-	r.Subspace("every shift k=1..50 x failing kinds x contexts x 2 prefixes x 2 gaps", int64(len(kinds)*len(ctxs)*len(e2p)*len(e2g)), true)
 	all := make([]int, 50)
 	for i := range all {
 		all[i] = i + 1
 	}
-	r.Parallel(int64(len(kinds)*len(ctxs)*len(e2p)*len(e2g)), 0, func(i int64) {
-		j := int(i)
+	everyShift := func(name string, kds, cxs, pfx, gp []int) {
+		n := int64(len(kds) * len(cxs) * len(pfx) * len(gp))
+		phase("every shift, " + name)
+		r.Subspace(fmt.Sprintf("every shift k=1..50 x %d failing kinds x %d contexts x %d prefixes x %d gaps (%s)", len(kds), len(cxs), len(pfx), len(gp), name), n, true)
+		r.Parallel(n, 0, func(i int64) {
+			j := int(i)
+			var cl cell
+			cl.gap = gp[j%len(gp)]
+			j /= len(gp)
+			p := prefixes[pfx[j%len(pfx)]]
+			j /= len(pfx)
+			cl.prefix, cl.prefixRunsBlock = p.text, p.runsBlock
+			cl.ctx = cxs[j%len(cxs)]
+			cl.kind = kds[j/len(cxs)]
+			r.Check(trace(runCell(r, cl, all, "")))
+		})
+	}
+	everyShift("earlier tables", earlyKinds, coreCtxs, e2p, e2g)
+	everyShift("later kinds", lateKinds, coreCtxs, e2p[1:], e2g[:1])
+	if r.Quick() {
+		everyShift("later contexts, one kind per family", familyKinds, extraCtxs, e2p[:1], e2g[1:])
+	} else {
+		everyShift("later contexts", seq(len(kinds)), extraCtxs, e2p[:1], e2g[1:])
+	}
+
+	// E7: shifts across the limits of narrow integers (a line counter kept in 8 or 16 bits, a width-limited format)
+	phase("E7")
+	big := []int{127, 128, 255, 256, 999, 1000, 32767, 32768, 65535, 65536}
+	e7n := int64(len(familyKinds) * len(coreCtxs))
+	r.Subspace(fmt.Sprintf("E7 shifts %v x one kind per family x %d contexts", big, len(coreCtxs)), e7n, true)
+	r.Parallel(e7n, 0, func(i int64) {
 		var cl cell
-		cl.gap = e2g[j%2]
+		cl.ctx = coreCtxs[int(i)%len(coreCtxs)]
+		cl.kind = familyKinds[int(i)/len(coreCtxs)]
+		p := prefixes[e2p[int(i)%2]]
+		cl.prefix, cl.prefixRunsBlock = p.text, p.runsBlock
+		cl.gap = int(i) % len(gaps)
+		r.Check(trace(runCell(r, cl, big, "")))
+	})
+
+	// E5 (sequential: the cache switch is a package variable): with plush.CacheEnabled on, every kind that fails
+	// while rendering x every context x 2 prefixes x both evaluation orders (unshifted first / shifted first), the
+	// shift lines empty or not; the parsed template is also executed twice. What an earlier evaluation left in the
+	// cache or in the template must not show in the line of a later one.
+	e5p := pick("empty", "multi-line comment")
+	e5n := len(runtimeKinds) * len(ctxs) * 2
+	phase("E5")
+	r.Subspace("E5 cache on: kinds failing at run time x contexts x 2 evaluation orders (the prefix alternates), 2 shifts each, parsed template executed twice", int64(e5n), true)
+	for i := 0; i < e5n; i++ {
+		if !r.Mine(int64(i)) {
+			continue
+		}
+		j := i
+		var cl cell
+		first := j%2 == 1
 		j /= 2
-		p := prefixes[e2p[j%2]]
-		j /= 2
+		p := prefixes[e5p[(j/7)%len(e5p)]]
 		cl.prefix, cl.prefixRunsBlock = p.text, p.runsBlock
 		cl.ctx = j % len(ctxs)
-		cl.kind = j / len(ctxs)
-		r.Check(trace(runCell(r, cl, all, "")))
-	})
+		cl.kind = runtimeKinds[j/len(ctxs)]
+		cl.gap, cl.suffix = i%len(gaps), (i/3)%len(suffixes)
+		shiftText := ""
+		if i%4 >= 2 {
+			shiftText = " \t"
+		}
+		r.Check(trace(runCellWith(r, cl, []int{1 + i%3, 9 + i%40}, shiftText, true, first)))
+	}
 
 	if n, e := atomic.LoadInt64(&noError), atomic.LoadInt64(&evaluated); e > 0 && n*50 > e {
 		fmt.Printf("HARNESS-ERROR property=C15: %d of %d generated faulty templates returned no error: the generator no longer produces faults\n", n, e)
@@ -705,17 +1175,28 @@ func TestProp(t *testing.T) {
 		os.Exit(2)
 	}
 
+	phase("R")
+	defer phase("end")
 	// R: random prefixes, random layouts of the failing tag, random suffix text
 	r.Rapid("random", r.Pick(6000, 60000), func(t *rapid.T) *vk.Fail {
 		var cl cell
 		cl.prefix, cl.prefixRunsBlock = genPrefix(t)
 		cl.kind = rapid.IntRange(0, len(kinds)-1).Draw(t, "kind")
 		cl.ctx = rapid.IntRange(0, len(ctxs)-1).Draw(t, "ctx")
+		if rapid.IntRange(0, 2).Draw(t, "nested") == 0 {
+			x := genNest(t)
+			cl.nest = &x
+		}
 		cl.gap = rapid.IntRange(0, len(gaps)-1).Draw(t, "gap")
 		cl.suffix = rapid.IntRange(0, len(suffixes)-1).Draw(t, "suffix")
 		// random extra suffix lines
 		for i := rapid.IntRange(0, 3).Draw(t, "extra"); i > 0; i-- {
 			cl.extra += genTextLine(t) + "\n"
+		}
+		if kinds[cl.kind].toEOF {
+			// the text after an unterminated tag or string is code: random text there (a quote that ends the string, a
+			// brace that ends the enclosing block, an operator) can make an ENCLOSING statement the failing one
+			cl.extra = ""
 		}
 		c, classes, ok := build(cl)
 		if !ok {
@@ -724,7 +1205,11 @@ func TestProp(t *testing.T) {
 		}
 		// random layout: each space of the failing tag independently stays, or becomes LF / CR LF / several LFs
 		var sb strings.Builder
-		for _, ch := range kinds[cl.kind].tag {
+		base := kinds[cl.kind].tag
+		if rapid.IntRange(0, 3).Draw(t, "tight") == 0 {
+			base = layout(base, layTight)
+		}
+		for _, ch := range base {
 			if ch == ' ' {
 				sb.WriteString(rapid.SampledFrom([]string{" ", " ", " ", "\n", "\r\n", "\n\n", " \n\t"}).Draw(t, "sep"))
 			} else {
@@ -739,13 +1224,26 @@ func TestProp(t *testing.T) {
 			}
 		}
 		// the prefix must be a valid template on its own
-		res := vk.Safe(func() (string, error) { return plush.Render(cl.prefix, plush.NewContextWith(data())) })
+		x := ctxs[cl.ctx]
+		if cl.nest != nil {
+			x = *cl.nest
+		}
+		res := vk.Safe(func() (string, error) {
+			return plush.Render(cl.prefix+x.pre+x.ok()+x.post, plush.NewContextWith(data()))
+		})
 		if res.Panicked() || res.Err != nil {
-			r.Exclude("random prefix does not render (not C15's subject)")
+			if cl.nest != nil && os.Getenv("C15_TRACE") != "" {
+				fmt.Printf("NEST-INVALID %q: %s\n", cl.prefix+x.pre+x.ok()+x.post, res)
+			}
+			r.Exclude("random prefix or context does not render with a harmless tag (not C15's subject)")
 			return nil
 		}
 		c.Shifts = []int{rapid.IntRange(1, 50).Draw(t, "k")}
 		c.ShiftText = vk.Text(rapid.SampledFrom([]string{"", "", "t", "a \\ b", "é\r"}).Draw(t, "shift text"))
+		// (this phase runs sequentially: the cache switch may be used)
+		if kinds[cl.kind].runtime && rapid.IntRange(0, 3).Draw(t, "cache") == 0 {
+			c.Cached, c.ShiftFirst = true, rapid.Bool().Draw(t, "shifted first")
+		}
 		return trace(check(r, c))
 	})
 }
